@@ -4,21 +4,8 @@ from __future__ import annotations
 import json
 import os
 import subprocess
-import sys
 
 HERE = os.path.dirname(os.path.dirname(os.path.abspath(__file__)))
-
-# property -> callable(obligation, witness, repo, seed) -> (confirmed: bool, detail: dict)
-HARNESSES: dict = {}
-
-
-def harness(*props):
-    def deco(fn):
-        for p in props:
-            HARNESSES.setdefault(p, []).append(fn)
-        return fn
-
-    return deco
 
 
 def run_native(script: str, repo: str, args=(), timeout=120):
@@ -28,18 +15,36 @@ def run_native(script: str, repo: str, args=(), timeout=120):
     env["PYTHONPATH"] = repo
     env["PYTHONDONTWRITEBYTECODE"] = "1"
     p = subprocess.run([py, script, *args], cwd=repo, env=env, capture_output=True, text=True, timeout=timeout)
-    return p.returncode, (p.stdout + p.stderr)[-4000:]
+    return p.returncode, p.stdout[-4000:], p.stderr[-2000:]
 
 
 def try_replay(prop, obligation, witness, repo, seed):
-    for h in HARNESSES.get(prop, []):
-        r = h(obligation, witness, repo, seed)
-        if r is None:
-            continue
-        confirmed, detail = r
-        if confirmed:
-            return True, detail
-        last = detail
-    else:
-        last = {"note": "no replay harness applies to this obligation"} if not HARNESSES.get(prop) else locals().get("last", {})
-    return False, last
+    """-> (confirmed, detail).  Pure-function obligations: the real function is executed on the
+    counter-model / a seeded input family and compared with a concrete spec (replay/pure_oracle.py).
+    Known-finding probes are replayed by their own scripts.  Everything else: no harness."""
+    oid = obligation["oid"]
+    # oid = <prop>:<function key>:<kind>:<label>[tree]
+    try:
+        func = oid.split(":")[1]
+        tree = "sync" if oid.endswith("[sync]") else "async"
+    except Exception:
+        return False, {"note": "unparsable obligation id"}
+    if oid.split(":")[1] in ("twin", "frame"):
+        w = (witness or {})
+        return False, {"note": "structural obligation: the witness names the diverging lines / stores", "witness": w}
+    script = os.path.join(HERE, "replay", "pure_oracle.py")
+    model = json.dumps((witness or {}).get("model") or {})
+    try:
+        rc, out, err = run_native(script, repo, [func, tree, str(seed), model])
+    except subprocess.TimeoutExpired:
+        return False, {"note": "native replay timed out"}
+    try:
+        res = json.loads(out.strip().splitlines()[-1])
+    except Exception:
+        return False, {"note": "native replay produced no result", "stderr": err[-500:]}
+    if not res.get("applies"):
+        return False, {"note": "no native replay harness for this function (stateful / concurrent obligation)"}
+    if rc == 1 and res.get("failing_input") is not None:
+        res["how_to_replay"] = f"cd {repo} && PYTHONPATH={repo} {os.path.join(HERE, '.venv/bin/python')} {script} {func} {tree} {seed}"
+        return True, res
+    return False, {"note": "native oracle ran the real function on the seeded input family and found no failing input", **res}
